@@ -207,27 +207,38 @@ def run_stream(pieces: List[Tuple[str, str]], cuts: Sequence[int], thr: int) -> 
             raised = f"{type(e).__name__}: {e}"
         ids, genuine = [], []
         off_now = fed - len(buf.data)                # characters consumed so far; this call consumed (off_prev, off_now]
+        views = []
         for m in got[:200]:
             ok = 0
-            ident = 0
+            vw = None
             if isinstance(m, IndiMessage):
                 try:
                     vw = view(m)
                     ok = 1 if view(IndiMessage.from_string(m.to_string())) == vw else 0
-                    # which of the stream's messages is it?  one with this content that lies in the region this call consumed
-                    # (a message assembled from junk elsewhere is none of them: id 0)
-                    region = [j for j in range(1, len(msgs) + 1)
-                              if msgs[j - 1]["first"] > off_prev and msgs[j - 1]["last"] <= off_now and expect[j] == vw]
-                    fresh = [j for j in region if j >= next_expected]
-                    if fresh:
-                        ident = fresh[0]
-                        next_expected = ident + 1
-                    elif region:
-                        ident = region[0]            # delivered twice: the contract will object
                 except Exception:
                     ok = 0
-            ids.append(ident)
+            views.append(vw)
             genuine.append(ok)
+        # which of the stream's messages are they?  deliveries and the layout messages inside the region this call consumed
+        # are both in stream order: align them by a longest common subsequence on content; a delivered message that is
+        # not aligned (e.g. one assembled from junk) is none of the stream's messages: id 0
+        region = [j for j in range(1, len(msgs) + 1) if msgs[j - 1]["first"] > off_prev and msgs[j - 1]["last"] <= off_now]
+        n, k = len(views), len(region)
+        L = [[0] * (k + 1) for _ in range(n + 1)]
+        for i in range(n - 1, -1, -1):
+            for j in range(k - 1, -1, -1):
+                L[i][j] = L[i + 1][j + 1] + 1 if views[i] is not None and views[i] == expect[region[j]] else max(L[i + 1][j], L[i][j + 1])
+        ids = [0] * n
+        i = j = 0
+        while i < n and j < k:
+            if views[i] is not None and views[i] == expect[region[j]] and L[i][j] == L[i + 1][j + 1] + 1:
+                ids[i] = region[j]
+                i += 1
+                j += 1
+            elif L[i + 1][j] >= L[i][j + 1]:
+                i += 1
+            else:
+                j += 1
         ev.append({"fed": fed, "ids": ids, "genuine": genuine, "dlen": len(buf.data), "raised": raised})
         off_prev = off_now
         if raised:
